@@ -68,6 +68,14 @@ func c08Prelude() []zn.Stmt {
 			ret(bin("+", zn.Call{Name: "记", Args: []zn.Expr{v("深"), zn.Call{Name: "探", Args: []zn.Expr{bin("-", v("深"), num(1))}}}}, v("深")))}},
 		zn.Decl{Pairs: []zn.DeclPair{{Names: []string{"O"}, Val: zn.New{Class: "型", Args: []zn.Expr{num(5)}}}}},
 		zn.Decl{Pairs: []zn.DeclPair{{Names: []string{"P"}, Val: zn.New{Class: "型", Args: []zn.Expr{num(7)}}}}},
+		// a method that calls whatever method it is given; a second one-argument method to give it
+		zn.Func{Name: "应用", Params: []string{"回调", "值"}, Body: []zn.Stmt{ret(zn.Call{Name: "回调", Args: []zn.Expr{v("值")}})}},
+		zn.Func{Name: "倍", Params: []string{"X"}, Body: []zn.Stmt{show(str("倍"), v("X")), ret(bin("*", v("X"), num(2)))}},
+		// a top-level variable named like the input of a method whose nested call fails on its
+		// argument count and is handled inside that method
+		zn.Decl{Pairs: []zn.DeclPair{{Names: []string{"参"}, Val: num(77)}}},
+		zn.Func{Name: "试错", Params: []string{"参"}, Body: []zn.Stmt{zn.ExprStmt{E: zn.Call{Name: "二", Args: []zn.Expr{v("参")}}}, ret(num(-2))},
+			Catches: []zn.Catch{{Class: "异常", Body: []zn.Stmt{ret(bin("+", v("参"), num(500)))}}}},
 		zn.Decl{Pairs: []zn.DeclPair{{Names: []string{"Q1"}, Val: zn.New{Class: "点"}}}},
 		zn.Decl{Pairs: []zn.DeclPair{{Names: []string{"Q2"}, Val: zn.New{Class: "点"}}}},
 	}
@@ -126,6 +134,10 @@ func c08Forms() []c08Form {
 		{"新建型", 1, func(a []zn.Expr) zn.Expr { return zn.Member{Root: zn.New{Class: "型", Args: []zn.Expr{a[0]}}, Name: "数"} }},
 		{"新建型-1", 0, func(a []zn.Expr) zn.Expr { return zn.Member{Root: zn.New{Class: "型"}, Name: "数"} }},
 		{"新建点", 0, func(a []zn.Expr) zn.Expr { return zn.Member{Root: zn.New{Class: "点"}, Name: "X"} }},
+		{"应用一", 1, func(a []zn.Expr) zn.Expr { return call("应用", zn.Var{Name: "一"}, a[0]) }},
+		{"应用倍", 1, func(a []zn.Expr) zn.Expr { return call("应用", zn.Var{Name: "倍"}, a[0]) }},
+		{"试错", 1, func(a []zn.Expr) zn.Expr { return call("试错", a[0]) }},
+		{"O试错", 0, func(a []zn.Expr) zn.Expr { return mc1(O, "加", call("试错", zn.Num{Lit: "3"})) }},
 		{"斐6", 0, func(a []zn.Expr) zn.Expr { return call("斐", zn.Num{Lit: "6"}) }},
 		{"阿22", 0, func(a []zn.Expr) zn.Expr { return call("阿", zn.Num{Lit: "2"}, zn.Num{Lit: "2"}) }},
 		{"探3", 0, func(a []zn.Expr) zn.Expr { return call("探", zn.Num{Lit: "3"}) }},
@@ -231,7 +243,7 @@ func (f c08Family) build(k int64) *zn.Program {
 	}
 	O, P := zn.Var{Name: "O"}, zn.Var{Name: "P"}
 	body = append(body, zn.ExprStmt{E: zn.Call{Name: "显示", Args: []zn.Expr{zn.Str{Val: "终"}, zn.Member{Root: O, Name: "数"}, zn.Member{Root: O, Name: "表"}, zn.Member{Root: P, Name: "数"}, zn.Member{Root: P, Name: "表"},
-		zn.Member{Root: zn.Var{Name: "Q1"}, Name: "X"}, zn.Member{Root: zn.Var{Name: "Q2"}, Name: "X"}, zn.Member{Root: zn.New{Class: "点"}, Name: "X"}}}})
+		zn.Member{Root: zn.Var{Name: "Q1"}, Name: "X"}, zn.Member{Root: zn.Var{Name: "Q2"}, Name: "X"}, zn.Member{Root: zn.New{Class: "点"}, Name: "X"}, zn.Var{Name: "参"}}}})
 	return &zn.Program{Body: body}
 }
 
@@ -240,7 +252,7 @@ func c08Families(tier string) []c08Family {
 	var key []c08Form
 	for _, f := range all {
 		switch f.name {
-		case "一", "二", "二-1", "O加", "O推", "O访P", "O试P", "O无", "O之数", "P之表", "O加加", "新建型", "Q1升", "新建点", "斐6":
+		case "一", "二", "二-1", "O加", "O推", "O访P", "O试P", "O无", "O之数", "P之表", "O加加", "新建型", "Q1升", "新建点", "斐6", "应用一", "应用倍", "试错":
 			key = append(key, f)
 		}
 	}
@@ -301,7 +313,7 @@ func init() {
 	mc.Register(&mc.Check{
 		ID:    "C08",
 		Level: "exploration",
-		Rule: "E1 exhaustive by rank/unrank: every program of m statements (显示 e | O之数 = e | 令N = e | （一：e）得到R | {e}) whose expressions e range over ALL call/object expressions up to the depth bound built from 34 forms (methods of arity 0/1/2, recursion that re-enters one two-argument call expression while its later arguments are being evaluated (Fibonacci, Ackermann, a traced descent), a type whose default number is only ever changed in place (自增 through 其 and from outside, two instances plus fresh ones), in-place 自减 on a property, arity -1/+1 mismatches, recursion, methods of two instances of a type with scalar + list defaults and a constructor, 其 reads/writes, a method calling another object's method and then reading 其, a method whose nested call fails and is handled, 其自身, unknown method / property / function, chained 以…（…）、（…）, a built-in number method, 新建 with matching / missing / surplus arguments) with every leaf wrapped in a tracing call; final observation of both instances. Oracle: reference interpreter (ordered trace incl. argument evaluation order, error-ness). Distinct by construction; all non-trivial.",
+		Rule: "E1 exhaustive by rank/unrank: every program of m statements (显示 e | O之数 = e | 令N = e | （一：e）得到R | {e}) whose expressions e range over ALL call/object expressions up to the depth bound built from 38 forms (a method that calls the method it is given, called with two different methods; a method whose nested call fails on its argument count and is handled inside it while a top-level variable has the name of its input; methods of arity 0/1/2, recursion that re-enters one two-argument call expression while its later arguments are being evaluated (Fibonacci, Ackermann, a traced descent), a type whose default number is only ever changed in place (自增 through 其 and from outside, two instances plus fresh ones), in-place 自减 on a property, arity -1/+1 mismatches, recursion, methods of two instances of a type with scalar + list defaults and a constructor, 其 reads/writes, a method calling another object's method and then reading 其, a method whose nested call fails and is handled, 其自身, unknown method / property / function, chained 以…（…）、（…）, a built-in number method, 新建 with matching / missing / surplus arguments) with every leaf wrapped in a tracing call; final observation of both instances. Oracle: reference interpreter (ordered trace incl. argument evaluation order, error-ness). Distinct by construction; all non-trivial.",
 		Assumptions: []string{
 			"reference interpreter (manual ch.8) is the oracle; a method ending without 输出 is not asserted (none generated)",
 			"error codes are not compared across the call boundary",
